@@ -16,7 +16,7 @@ SOLVER_NAME = 'CrossHair 0.0.110 (symbolic execution of Python, z3 inside); solv
 LEVEL = 'other'
 TECHNIQUE = 'CrossHair (z3-backed symbolic execution) of a history interpreter over the real Config/ConfigState/_config_var/InverseOperator against an explicit-stack oracle; two tasks in separate contextvars.Contexts under a symbolic schedule'
 EXPLANATION = ('A symbolic history (List[int]) of events {enter one of three settings, leave normally, leave through an exception, create a lazy inverse, '
-               'apply it, read, transpose the last inverse} is executed on the REAL Config / ConfigState / _config_var / InverseOperator (lineax.linear_solve replaced by a recorder); '
+               'apply it, read, transpose the last inverse, construct a Config without entering it (2 settings), enter the Config constructed last} is executed on the REAL Config / ConfigState / _config_var / InverseOperator (lineax.linear_solve replaced by a recorder); '
                'after every event the active configuration must equal the top of an explicit stack (inheritance of un-named settings, restoration on both '
                'exit kinds), the object returned by __enter__ must be the active one, an inverse must hand the solver the configuration active at its '
                'creation, and at the end Config.instance() is the initial object. Isolation: two such histories run as two logical tasks, each in its own '
@@ -24,7 +24,7 @@ EXPLANATION = ('A symbolic history (List[int]) of events {enter one of three set
                'stack. CrossHair reports "Confirmed over all paths" = holds for every history within the bound. A concrete run with two real threads and '
                'barriers complements it.')
 FUNCTIONS = ['Config.__init__/__enter__/__exit__/instance', 'ConfigState (frozen dataclass, replace)', '_config_var (ContextVar, token reset)', 'InverseOperator.__init__ (config capture) / mv (solver, throw, options)']
-BOUNDS = {'quick': 'histories of length <= 4 over 9 event kinds (7 380 histories); two-task schedules of length <= 4 over 4 event kinds', 'thorough': 'histories of length <= 5 (66 429), schedules of length <= 5'}
+BOUNDS = {'quick': 'histories of length <= 4 over the 9 event kinds without deferred construction (7 380) and over the 8 kinds {enter 0/1, leave, leave by exception, read, construct 0/1, enter constructed} (4 680); two-task schedules of length <= 4 over 4 event kinds', 'thorough': 'histories of length <= 4 over all 12 event kinds (22 620) and of length <= 5 over the 9 kinds (66 429), schedules of length <= 5'}
 STUBS = ['lineax.linear_solve -> recorder of (solver, throw, options); jax.debug.callback dropped',
          'equinox module construction and the recorded solve run under crosshair NoTracing (values there are concrete)']
 ASSUMPTIONS = ['a thread switch changes context-variable state only through the Context switch; preemption inside the C-level ContextVar.set is outside the claim',
@@ -34,10 +34,21 @@ BUDGET = {'quick': 900, 'thorough': 3000}
 CASE_TIMEOUT = {'quick': 700, 'thorough': 2700}
 
 
+ALPHA_A = list(range(9))                    # every event kind except deferred construction
+ALPHA_B = [0, 1, 3, 4, 7, 9, 10, 11]       # enter / leave / read + construct-now-enter-later
+NOOP_HEADS = (3, 4, 6, 8, 11)               # a no-op as first event: the rest is a shorter history covered by the other runs
+
+
 def cases(tier, seed):
-    n = 4 if tier == 'quick' else 5
-    out = [('scoped', first, n) for first in range(9)]
-    out += [('isolated', first, n) for first in range(4)]
+    out = []
+    if tier == 'quick':
+        out += [('scoped', first, 4, 'A') for first in ALPHA_A if first not in NOOP_HEADS]
+        out += [('scoped', first, 4, 'B') for first in ALPHA_B if first not in NOOP_HEADS]
+        out += [('isolated', first, 4) for first in range(3)]
+    else:
+        out += [('scoped', first, 4, 'all') for first in range(12)]
+        out += [('scoped', first, 5, 'A') for first in ALPHA_A]
+        out += [('isolated', first, 5) for first in range(4)]
     out.append(('threads',))
     return out
 
@@ -46,12 +57,16 @@ def twins():
     return [('twin-ch',)]
 
 
-def _crosshair(mode, first, maxlen, timeout, mutant=False):
-    env = dict(os.environ, C19_FIRST=str(first), C19_MAXLEN=str(maxlen), C19_MODE=mode, PYTHONPATH=VERIF + os.pathsep + os.environ.get('PYTHONPATH', ''))
+def _crosshair(mode, first, maxlen, timeout, mutant=False, alpha='all'):
+    allowed = {'A': ALPHA_A, 'B': ALPHA_B}.get(alpha)
+    env = dict(os.environ, C19_ALLOWED=','.join(map(str, allowed)) if allowed else '', C19_FIRST=str(first), C19_MAXLEN=str(maxlen), C19_MODE=mode, PYTHONPATH=VERIF + os.pathsep + os.environ.get('PYTHONPATH', ''))
     target = os.path.join(VERIF, 'fxv', 'ch', 'c19_driver_mut.py' if mutant else 'c19_driver.py')
     t0 = time.time()
-    p = subprocess.run([sys.executable, '-m', 'crosshair', 'check', '--report_all', '--per_condition_timeout', str(timeout), target],
-                       capture_output=True, text=True, env=env, timeout=timeout + 120)
+    try:
+        p = subprocess.run([sys.executable, '-m', 'crosshair', 'check', '--report_all', '--per_condition_timeout', str(timeout), target],
+                           capture_output=True, text=True, env=env, timeout=timeout + 120)
+    except subprocess.TimeoutExpired:
+        return 'crosshair did not return within its budget', time.time() - t0
     return p.stdout + p.stderr, time.time() - t0
 
 
@@ -92,12 +107,13 @@ def run_case(key, twin=False):
         if st.startswith('counterexample'):
             return violation(f'(expected) Config.__exit__ that restores the default fails on history {info}', signature='twin', kind='twin', solver_s=dt)
         return ok(sample=dict(note='mutant not found', out=out[-300:]))
-    mode, first, maxlen = key
+    mode, first, maxlen = key[:3]
+    alpha = key[3] if len(key) > 3 else 'all'
     per = 500 if maxlen <= 4 else 2400
-    out, dt = _crosshair(mode, first, maxlen, per)
+    out, dt = _crosshair(mode, first, maxlen, per, alpha=alpha)
     st, info = _parse(out)
     if st == 'confirmed':
-        return ok(obligations=1, nontrivial=True, solver_s=dt, sample=dict(harness=mode, first_event=first, maxlen=maxlen, verdict='Confirmed over all paths', seconds=round(dt, 1)))
+        return ok(obligations=1, nontrivial=True, solver_s=dt, sample=dict(harness=mode, alphabet=alpha, first_event=first, maxlen=maxlen, verdict='Confirmed over all paths', seconds=round(dt, 1)))
     if st == 'counterexample':
         return violation(f'{mode}: configuration differs from the explicit-stack oracle on history {info}', model={'lists': info}, signature=f'c19-{mode}:{info}', kind=mode, solver_s=dt)
     return inconclusive(f'CrossHair: {st}: {str(info)[:300]}', solver_s=dt)
